@@ -1,6 +1,7 @@
 //! Translator: reads /repo's current source with `syn` and writes Lean definitions (MoneroModel/Gen/*.lean) for what
 //! in the code is a table, a constant or a mechanical delegation. Unrecognised shapes are reported as
-//! `EXTRACT-FAIL <item>: <why>` and the item is emitted as `none`/empty so that the Lean project still compiles.
+//! `EXTRACT-FAIL <item>: <why>` and the item is emitted as an empty table / `none` so that the Lean project still
+//! compiles; the properties that use the item then count the tie as broken.
 use quote::ToTokens;
 use std::fmt::Write as _;
 use syn::visit::Visit;
@@ -10,14 +11,16 @@ pub struct Ex { pub fails: Vec<String> }
 impl Ex { fn fail(&mut self, item: &str, why: &str) { self.fails.push(format!("EXTRACT-FAIL {}: {}", item, why)); } }
 
 fn read(path: &str) -> File { parse_file(&std::fs::read_to_string(format!("/repo/{}", path)).expect(path)).expect(path) }
+fn toks<T: ToTokens>(t: &T) -> String { t.to_token_stream().to_string().split_whitespace().collect::<Vec<_>>().join("") }
 
-/// evaluate a constant integer expression made of literals, `*`, `+`, `-`, `<<`, parentheses
-fn eval(e: &Expr) -> Option<u128> {
+/// evaluate a constant integer expression made of literals, `*`, `+`, `-`, `<<`, parentheses, casts
+fn eval(e: &Expr) -> Option<i128> {
     match e {
         Expr::Lit(ExprLit { lit: Lit::Int(i), .. }) => i.base10_parse().ok(),
         Expr::Paren(p) => eval(&p.expr),
         Expr::Group(g) => eval(&g.expr),
         Expr::Cast(c) => eval(&c.expr),
+        Expr::Unary(ExprUnary { op: UnOp::Neg(_), expr, .. }) => eval(expr).map(|v| -v),
         Expr::Binary(b) => { let (l, r) = (eval(&b.left)?, eval(&b.right)?); match b.op {
             BinOp::Mul(_) => l.checked_mul(r), BinOp::Add(_) => l.checked_add(r), BinOp::Sub(_) => l.checked_sub(r),
             BinOp::Shl(_) => l.checked_shl(r as u32), _ => None } }
@@ -25,27 +28,250 @@ fn eval(e: &Expr) -> Option<u128> {
     }
 }
 
-struct Consts<'a> { found: Vec<(&'a ItemConst, String)> }
-impl<'a> Visit<'a> for Consts<'a> {
-    fn visit_item_const(&mut self, i: &'a ItemConst) { self.found.push((i, i.ident.to_string())); }
-    fn visit_item_mod(&mut self, m: &'a ItemMod) { if m.ident != "tests" && m.ident != "test" { visit::visit_item_mod(self, m); } }
+struct Items<'a> { consts: Vec<&'a ItemConst>, fns: Vec<(String, String, String, &'a ImplItemFn)>, free: Vec<&'a ItemFn>, macros: Vec<&'a ItemMacro>, structs: Vec<&'a ItemStruct>, modpath: Vec<String> }
+impl<'a> Visit<'a> for Items<'a> {
+    fn visit_item_const(&mut self, i: &'a ItemConst) { self.consts.push(i); }
+    fn visit_item_fn(&mut self, i: &'a ItemFn) { self.free.push(i); }
+    fn visit_item_macro(&mut self, i: &'a ItemMacro) { self.macros.push(i); }
+    fn visit_item_struct(&mut self, i: &'a ItemStruct) { self.structs.push(i); }
+    fn visit_item_impl(&mut self, i: &'a ItemImpl) {
+        let ty = toks(&i.self_ty);
+        let tr = i.trait_.as_ref().map(|(_, p, _)| toks(p)).unwrap_or_default();
+        for it in &i.items { if let ImplItem::Fn(f) = it { self.fns.push((ty.clone(), tr.clone(), f.sig.ident.to_string(), f)); } }
+    }
+    fn visit_item_mod(&mut self, m: &'a ItemMod) {
+        let n = m.ident.to_string();
+        if n != "tests" && n != "test" && n != "serde" { self.modpath.push(n); visit::visit_item_mod(self, m); self.modpath.pop(); }
+    }
+}
+fn items(f: &File) -> Items<'_> { let mut it = Items { consts: vec![], fns: vec![], free: vec![], macros: vec![], structs: vec![], modpath: vec![] }; it.visit_file(f); it }
+fn find_fn<'a>(it: &'a Items<'a>, ty: &str, tr: &str, name: &str) -> Option<&'a ImplItemFn> {
+    it.fns.iter().find(|(t, r, n, _)| t == ty && n == name && (tr == "*" || r == tr || r.ends_with(tr) && !tr.is_empty())).map(|x| x.3)
+}
+
+fn pat_name(p: &Pat) -> Option<String> { match p {
+    Pat::Ident(i) => Some(i.ident.to_string()),
+    Pat::TupleStruct(t) => t.path.segments.last().map(|s| s.ident.to_string()),
+    Pat::Struct(t) => t.path.segments.last().map(|s| s.ident.to_string()),
+    Pat::Path(p) => p.path.segments.last().map(|s| s.ident.to_string()), _ => None } }
+fn pat_variants(p: &Pat, out: &mut Vec<String>) -> bool { match p {
+    Pat::Or(o) => o.cases.iter().all(|c| pat_variants(c, out)),
+    Pat::Wild(_) => false,
+    other => { if let Some(n) = pat_name(other) { out.push(n); true } else { false } } } }
+fn pat_ints(p: &Pat, out: &mut Vec<i128>) -> bool { match p {
+    Pat::Lit(l) => { if let Lit::Int(i) = &l.lit { out.push(i.base10_parse().unwrap()); true } else { false } }
+    Pat::Or(o) => o.cases.iter().all(|c| pat_ints(c, out)), _ => false } }
+fn pat_strs(p: &Pat, out: &mut Vec<String>) -> bool { match p {
+    Pat::Lit(l) => { if let Lit::Str(s) = &l.lit { out.push(s.value()); true } else { false } }
+    Pat::Or(o) => o.cases.iter().all(|c| pat_strs(c, out)), _ => false } }
+fn last_match(b: &Block) -> Option<&ExprMatch> { b.stmts.iter().rev().find_map(|s| match s { Stmt::Expr(Expr::Match(m), _) => Some(m), _ => None }) }
+/// first `match` anywhere in a block (pre-order)
+struct FirstMatch<'a>(Option<&'a ExprMatch>);
+impl<'a> Visit<'a> for FirstMatch<'a> { fn visit_expr_match(&mut self, m: &'a ExprMatch) { if self.0.is_none() { self.0 = Some(m); } } }
+fn ok_variant(e: &Expr) -> Option<String> { // Ok(Variant) / Ok(Variant(..)) / Ok(Ty::Variant)
+    if let Expr::Call(c) = e { if toks(&c.func) == "Ok" { return match c.args.first()? {
+        Expr::Path(p) => p.path.segments.last().map(|s| s.ident.to_string()),
+        Expr::Call(c2) => if let Expr::Path(p) = &*c2.func { p.path.segments.last().map(|s| s.ident.to_string()) } else { None }, _ => None }; } }
+    None
+}
+fn block_tail(b: &Block) -> Option<&Expr> { match b.stmts.last()? { Stmt::Expr(e, None) => Some(e), _ => None } }
+fn lean_str(s: &str) -> String { format!("[{}]", s.bytes().map(|b| b.to_string()).collect::<Vec<_>>().join(", ")) }
+
+struct Collect { len_lt: Vec<i128>, ranges: Vec<(i128, i128)> }
+impl<'a> Visit<'a> for Collect {
+    fn visit_expr_binary(&mut self, b: &'a ExprBinary) {
+        if matches!(b.op, BinOp::Lt(_)) && toks(&b.left).contains("len()") { if let Some(v) = eval(&b.right) { self.len_lt.push(v); } }
+        visit::visit_expr_binary(self, b);
+    }
+    fn visit_expr_range(&mut self, r: &'a ExprRange) {
+        if let (Some(a), Some(b)) = (r.start.as_ref().and_then(|e| eval(e)), r.end.as_ref().and_then(|e| eval(e))) { self.ranges.push((a, b)); }
+        visit::visit_expr_range(self, r);
+    }
+}
+
+const NETS: [&str; 3] = ["Mainnet", "Testnet", "Stagenet"];
+const KINDS: [&str; 3] = ["Standard", "Integrated", "SubAddress"];
+const DENOMS: [&str; 5] = ["Monero", "Millinero", "Micronero", "Nanonero", "Piconero"];
+
+fn network_tables(ex: &mut Ex, s: &mut String) {
+    let f = read("src/network.rs"); let it = items(&f);
+    // Network::as_u8
+    let mut rows = vec![];
+    match find_fn(&it, "Network", "", "as_u8").and_then(|f| last_match(&f.block)) {
+        Some(m) => for arm in &m.arms {
+            let net = pat_name(&arm.pat).unwrap_or_default();
+            if !NETS.contains(&net.as_str()) { ex.fail("network.as_u8", &format!("unknown network arm `{}`", toks(&arm.pat))); continue; }
+            if let Expr::Match(im) = &*arm.body { for ia in &im.arms {
+                let k = pat_name(&ia.pat).unwrap_or_default();
+                match (KINDS.contains(&k.as_str()), eval(&ia.body)) { (true, Some(v)) => rows.push(format!("(.{}, .{}, {})", net, k, v)), _ => ex.fail("network.as_u8", &format!("arm `{}`", toks(ia))) }
+            } } else { ex.fail("network.as_u8", "inner match expected"); }
+        },
+        None => ex.fail("network.as_u8", "function or match not found"),
+    }
+    writeln!(s, "/-- `Network::as_u8` (src/network.rs): (network, address type) ↦ tag byte -/\ndef asU8 : List (Net × Kind × Nat) := [{}]", rows.join(", ")).unwrap();
+    // Network::from_u8
+    let mut rows = vec![];
+    match find_fn(&it, "Network", "", "from_u8").and_then(|f| last_match(&f.block)) {
+        Some(m) => for arm in &m.arms {
+            let mut ints = vec![];
+            if pat_ints(&arm.pat, &mut ints) { match ok_variant(&arm.body) { Some(v) if NETS.contains(&v.as_str()) => for i in ints { rows.push(format!("({}, .{})", i, v)); }, _ => ex.fail("network.from_u8", &format!("arm body `{}`", toks(&arm.body))) } }
+            else if !matches!(arm.pat, Pat::Wild(_)) { ex.fail("network.from_u8", &format!("pattern `{}`", toks(&arm.pat))); }
+            else if !toks(&arm.body).starts_with("Err") { ex.fail("network.from_u8", "wildcard arm is not an error"); }
+        },
+        None => ex.fail("network.from_u8", "function or match not found"),
+    }
+    writeln!(s, "/-- `Network::from_u8`: accepted byte ↦ network (every other byte is an error) -/\ndef fromU8 : List (Nat × Net) := [{}]", rows.join(", ")).unwrap();
+}
+
+fn address_tables(ex: &mut Ex, s: &mut String) {
+    let f = read("src/util/address.rs"); let it = items(&f);
+    let mut rows = vec![]; let mut empty_err = false;
+    match find_fn(&it, "AddressType", "", "from_slice") {
+        Some(func) => {
+            empty_err = func.block.stmts.iter().any(|st| { let t = toks(st); t.starts_with("ifbytes.is_empty()") && t.contains("returnErr") });
+            if toks(&func.block).matches("letbyte=bytes[0];").count() != 1 { ex.fail("address.from_slice", "tag is not read from bytes[0]"); }
+            match last_match(&func.block) { Some(m) => for arm in &m.arms {
+                let net = pat_name(&arm.pat).unwrap_or_default();
+                if !NETS.contains(&net.as_str()) { ex.fail("address.from_slice", &format!("network arm `{}`", toks(&arm.pat))); continue; }
+                if let Expr::Match(im) = &*arm.body { if toks(&im.expr) != "byte" { ex.fail("address.from_slice", "inner scrutinee"); }
+                    for ia in &im.arms {
+                        let mut ints = vec![];
+                        if pat_ints(&ia.pat, &mut ints) {
+                            let (kind, minlen, lo, hi) = match &*ia.body {
+                                Expr::Block(b) => { let mut c = Collect { len_lt: vec![], ranges: vec![] }; c.visit_block(&b.block);
+                                    let k = block_tail(&b.block).and_then(ok_variant);
+                                    if c.len_lt.len() != 1 || c.ranges.len() != 1 { ex.fail("address.from_slice", &format!("arm `{}`: expected one length test and one range", toks(&ia.pat))); }
+                                    (k, c.len_lt.first().copied().unwrap_or(0), c.ranges.first().map(|r| r.0).unwrap_or(0), c.ranges.first().map(|r| r.1).unwrap_or(0)) }
+                                e => (ok_variant(e), 0, 0, 0),
+                            };
+                            match kind { Some(k) if KINDS.contains(&k.as_str()) => for i in ints { rows.push(format!("(.{}, {}, .{}, {}, {}, {})", net, i, k, minlen, lo, hi)); },
+                                _ => ex.fail("address.from_slice", &format!("arm body `{}`", toks(&ia.body))) }
+                        } else if !matches!(ia.pat, Pat::Wild(_)) || !toks(&ia.body).starts_with("Err") { ex.fail("address.from_slice", &format!("arm `{}`", toks(&ia.pat))); }
+                    }
+                } else { ex.fail("address.from_slice", "inner match expected"); }
+            }, None => ex.fail("address.from_slice", "match not found") }
+        }
+        None => ex.fail("address.from_slice", "function not found"),
+    }
+    writeln!(s, "/-- `AddressType::from_slice` (src/util/address.rs): (network, first byte) ↦ (type, minimum blob length, payment-id byte range) -/\ndef addrType : List (Net × Nat × Kind × Nat × Nat × Nat) := [{}]", rows.join(", ")).unwrap();
+    writeln!(s, "/-- the empty blob is rejected before the tag is read -/\ndef addrTypeEmptyIsError : Bool := {}", empty_err).unwrap();
+}
+
+fn denomination_tables(ex: &mut Ex, s: &mut String, it: &Items) {
+    let mut prec = vec![];
+    match find_fn(it, "Denomination", "", "precision").and_then(|f| last_match(&f.block)) {
+        Some(m) => for arm in &m.arms { match (pat_name(&arm.pat), eval(&arm.body)) {
+            (Some(d), Some(v)) if DENOMS.contains(&d.as_str()) => prec.push(format!("(.{}, {})", d, v)), _ => ex.fail("amount.precision", &format!("arm `{}`", toks(arm))) } },
+        None => ex.fail("amount.precision", "function or match not found"),
+    }
+    writeln!(s, "/-- `Denomination::precision` (src/util/amount.rs) -/\ndef precision : List (Denom × Int) := [{}]", prec.join(", ")).unwrap();
+    let mut names = vec![];
+    match find_fn(it, "Denomination", "fmt::Display", "fmt") { Some(f) => { let mut fm = FirstMatch(None); fm.visit_block(&f.block);
+        match fm.0 { Some(m) => for arm in &m.arms { match (pat_name(&arm.pat), &*arm.body) {
+            (Some(d), Expr::Lit(ExprLit { lit: Lit::Str(st), .. })) if DENOMS.contains(&d.as_str()) => names.push(format!("(.{}, {})", d, lean_str(&st.value()))), _ => ex.fail("amount.denom_display", &format!("arm `{}`", toks(arm))) } },
+            None => ex.fail("amount.denom_display", "match not found") } }
+        None => ex.fail("amount.denom_display", "impl not found") }
+    writeln!(s, "/-- `Display for Denomination`: the suffix written by `to_string_with_denomination` (UTF-8 bytes) -/\ndef denomDisplay : List (Denom × List UInt8) := [{}]", names.join(", ")).unwrap();
+    let mut parse = vec![];
+    match find_fn(it, "Denomination", "FromStr", "from_str").and_then(|f| last_match(&f.block)) {
+        Some(m) => for arm in &m.arms { let mut strs = vec![];
+            if pat_strs(&arm.pat, &mut strs) { match ok_variant(&arm.body) { Some(d) if DENOMS.contains(&d.as_str()) => for x in strs { parse.push(format!("({}, .{})", lean_str(&x), d)); }, _ => ex.fail("amount.denom_fromstr", &format!("arm body `{}`", toks(&arm.body))) } }
+            else if !toks(&arm.body).starts_with("Err") { ex.fail("amount.denom_fromstr", &format!("arm `{}`", toks(&arm.pat))); } },
+        None => ex.fail("amount.denom_fromstr", "function or match not found"),
+    }
+    writeln!(s, "/-- `FromStr for Denomination`: accepted spellings (UTF-8 bytes) -/\ndef denomFromStr : List (List UInt8 × Denom) := [{}]", parse.join(", ")).unwrap();
+}
+
+/// `self.0.checked_add(rhs.0).map(Amount)` → ("checked_add", wraps result in the newtype)
+fn delegation(e: &Expr, newtype: &str) -> Option<String> {
+    if let Expr::MethodCall(map) = e { if map.method == "map" && map.args.len() == 1 && toks(&map.args[0]) == newtype {
+        if let Expr::MethodCall(inner) = &*map.receiver { if toks(&inner.receiver) == "self.0" && inner.args.len() == 1 {
+            let a = toks(&inner.args[0]); if a == "rhs.0" || a == "rhs" { return Some(inner.method.to_string()); } } } } }
+    None
+}
+/// `self.checked_add(rhs).expect("..")` → "checked_add"
+fn expect_of(e: &Expr) -> Option<String> {
+    if let Expr::MethodCall(ex) = e { if ex.method == "expect" { if let Expr::MethodCall(inner) = &*ex.receiver {
+        if toks(&inner.receiver) == "self" && inner.args.len() == 1 { return Some(inner.method.to_string()); } } } }
+    None
+}
+/// `*self = *self + other` → "+"
+fn assign_of(b: &Block) -> Option<String> {
+    if b.stmts.len() != 1 { return None; }
+    let e = match &b.stmts[0] { Stmt::Expr(e, _) => e, _ => return None };
+    if let Expr::Assign(a) = e { if toks(&a.left) == "*self" { if let Expr::Binary(bin) = &*a.right {
+        if toks(&bin.left) == "*self" && matches!(&*bin.right, Expr::Path(_)) { return Some(toks(&bin.op)); } } } }
+    None
+}
+const STD_OPS: [&str; 15] = ["checked_add", "checked_sub", "checked_mul", "checked_div", "checked_rem", "wrapping_add", "wrapping_sub", "wrapping_mul", "wrapping_div", "wrapping_rem", "saturating_add", "saturating_sub", "saturating_mul", "checked_div_euclid", "checked_rem_euclid"];
+
+fn amount_tables(ex: &mut Ex, s: &mut String, it: &Items) {
+    for (ty, pre) in [("Amount", "u"), ("SignedAmount", "s")] {
+        for m in ["checked_add", "checked_sub", "checked_mul", "checked_div", "checked_rem"] {
+            let item = format!("amount.{}.{}", ty, m);
+            let v = find_fn(it, ty, "", m).and_then(|f| block_tail(&f.block)).and_then(|e| delegation(e, ty));
+            match v { Some(op) if STD_OPS.contains(&op.as_str()) => writeln!(s, "def {}_{} : Option StdOp := some .{}", pre, m, op).unwrap(),
+                _ => { ex.fail(&item, "body is not `self.0.<std method>(rhs).map(Newtype)` with a known std method"); writeln!(s, "def {}_{} : Option StdOp := none", pre, m).unwrap(); } }
+        }
+        for (tr, name, sym) in [("ops::Add", "add", "+"), ("ops::Sub", "sub", "-"), ("ops::Mul", "mul", "*"), ("ops::Div", "div", "/"), ("ops::Rem", "rem", "%")] {
+            let item = format!("amount.{}.op_{}", ty, name);
+            let f = it.fns.iter().find(|(t, r, n, _)| t == ty && n == name && r.starts_with(tr)).map(|x| x.3);
+            match f.and_then(|f| block_tail(&f.block)).and_then(expect_of) {
+                Some(c) if c.starts_with("checked_") && ["add", "sub", "mul", "div", "rem"].contains(&&c[8..]) => writeln!(s, "/-- `{} {}` is `expect` on this checked method -/\ndef {}_op_{} : Option Arith := some .{}", ty, sym, pre, name, &c[8..]).unwrap(),
+                _ => { ex.fail(&item, "body is not `self.checked_<op>(rhs).expect(..)`"); writeln!(s, "def {}_op_{} : Option Arith := none", pre, name).unwrap(); } }
+            let aname = format!("{}_assign", name);
+            let item = format!("amount.{}.op_{}", ty, aname);
+            let f = it.fns.iter().find(|(t, r, n, _)| t == ty && *n == aname && r.starts_with(&format!("{}Assign", tr))).map(|x| x.3);
+            let sym2arith = |x: &str| match x { "+" => Some("add"), "-" => Some("sub"), "*" => Some("mul"), "/" => Some("div"), "%" => Some("rem"), _ => None };
+            match f.and_then(|f| assign_of(&f.block)).and_then(|x| sym2arith(&x)) {
+                Some(a) => writeln!(s, "/-- `{} {}=` is `*self = *self <op> other` with this operator -/\ndef {}_op_{} : Option Arith := some .{}", ty, sym, pre, aname, a).unwrap(),
+                None => { ex.fail(&item, "body is not `*self = *self <op> other`"); writeln!(s, "def {}_op_{} : Option Arith := none", pre, aname).unwrap(); } }
+        }
+    }
+    // the three hand-modelled bodies: emit whether they still have the reviewed shape
+    let reviewed = [
+        ("Amount", "to_signed", "{ifself.as_pico()>SignedAmount::max_value().as_pico()asu64{Err(ParsingError::TooBig)}else{Ok(SignedAmount::from_pico(self.as_pico()asi64))}}"),
+        ("SignedAmount", "to_unsigned", "{ifself.is_negative(){Err(ParsingError::Negative)}else{Ok(Amount::from_pico(self.as_pico()asu64))}}"),
+        ("SignedAmount", "positive_sub", "{ifself.is_negative()||rhs.is_negative()||rhs>self{None}else{self.checked_sub(rhs)}}"),
+        ("SignedAmount", "is_negative", "{self.0.is_negative()}"),
+        ("SignedAmount", "max_value", "{SignedAmount(i64::max_value())}"),
+    ];
+    for (ty, name, want) in reviewed {
+        let got = find_fn(it, ty, "", name).map(|f| toks(&f.block)).unwrap_or_default();
+        let ok = got == want;
+        if !ok { ex.fail(&format!("amount.{}.{}", ty, name), &format!("body differs from the reviewed shape the hand-written model mirrors: `{}`", got)); }
+        writeln!(s, "def shape_{}_{} : Bool := {}", ty, name, ok).unwrap();
+    }
 }
 
 pub fn run(outdir: &str) -> Vec<String> {
     let mut ex = Ex { fails: vec![] };
-    let mut s = String::new();
-    writeln!(s, "/-! GENERATED by `harness extract` from /repo's current source on every run — do not edit. -/").unwrap();
+    std::fs::create_dir_all(outdir).unwrap();
+    let hdr = "/-! GENERATED by `harness extract` from /repo's current source on every run — do not edit. -/\n";
+    // ---- Consts.lean
+    let mut s = String::from(hdr);
     writeln!(s, "namespace Gen").unwrap();
-    // E1: MAX_VEC_MEM_ALLOC_SIZE
-    let enc = read("src/consensus/encode.rs");
-    let mut c = Consts { found: vec![] }; c.visit_file(&enc);
-    match c.found.iter().find(|(_, n)| n == "MAX_VEC_MEM_ALLOC_SIZE").and_then(|(i, _)| eval(&i.expr)) {
+    let enc = read("src/consensus/encode.rs"); let it = items(&enc);
+    match it.consts.iter().find(|c| c.ident == "MAX_VEC_MEM_ALLOC_SIZE").and_then(|i| eval(&i.expr)) {
         Some(v) => writeln!(s, "/-- `MAX_VEC_MEM_ALLOC_SIZE` (src/consensus/encode.rs) -/\ndef CAP : Nat := {}", v).unwrap(),
         None => { ex.fail("CAP", "MAX_VEC_MEM_ALLOC_SIZE not found or not a constant expression"); writeln!(s, "def CAP : Nat := 0").unwrap(); }
     }
     writeln!(s, "end Gen").unwrap();
-    std::fs::create_dir_all(outdir).unwrap();
     std::fs::write(format!("{}/Consts.lean", outdir), s).unwrap();
-    let _ = |e: &Expr| e.to_token_stream();
+    // ---- Tables.lean (network / address type)
+    let mut s = String::from("import MoneroModel.Types\n") + hdr;
+    writeln!(s, "namespace Gen").unwrap();
+    network_tables(&mut ex, &mut s);
+    address_tables(&mut ex, &mut s);
+    writeln!(s, "end Gen").unwrap();
+    std::fs::write(format!("{}/Tables.lean", outdir), s).unwrap();
+    // ---- Amount.lean
+    let mut s = String::from("import MoneroModel.Types\nimport MoneroModel.Model.StdInt\n") + hdr;
+    writeln!(s, "namespace Gen").unwrap();
+    let am = read("src/util/amount.rs"); let it = items(&am);
+    denomination_tables(&mut ex, &mut s, &it);
+    amount_tables(&mut ex, &mut s, &it);
+    writeln!(s, "end Gen").unwrap();
+    std::fs::write(format!("{}/Amount.lean", outdir), s).unwrap();
     ex.fails
 }
